@@ -1,6 +1,7 @@
 """One decision procedure per property (DESIGN.md section 5)."""
 import json, os, random, sys, time
 import vlib, afgen
+import cli as clilib
 from vlib import Result, log, seed
 
 CHECKS = {}
@@ -566,7 +567,8 @@ def c15(tier):
     ext = "ext:kissat|-q,ext:" + FAKESAT
     runs = [("hist_cadical", ["--hists", hfile, "--backends", "cadical"]),
             ("hist_external", ["--hists", hfile, "--stride", 4 if thorough else 16, "--backends", ext]),
-            ("walks_all", ["--walks", 1500 if thorough else 300, "--backends", "cadical," + ext])]
+            ("walks_all", ["--walks", 1500 if thorough else 300, "--backends", "cadical," + ext]),
+            ("big_cnf", ["--bigwalks", 120 if thorough else 24, "--backends", "cadical," + ext])]
     nt = set()
     for name, extra in runs:
         out = os.path.join(res.wd, name + ".ndjson")
@@ -692,6 +694,12 @@ def c13(tier):
     log("  RUN io: %d events %.1fs" % (len(evs), time.time() - t))
     t1, st = vlib.judge("TraceIO.tla", segs, res.wd, "io", shards=8)
     res.add_judge("io", t1, st, only_props={"C13"})
+    # the same abstract files through `crustabri check -f FILE -r FORMAT`
+    bindir = vlib.build_repo_bins()
+    allfiles = [json.loads(l) for l in open(allf)]
+    cevs = clilib.check_command_events(allfiles, res.wd, {"crustabri": os.path.join(bindir, "crustabri")}, seed(), 20000 if thorough else 3000)
+    t1c, stc = vlib.judge("TraceIO.tla", [[{"ev": "reset"}] + cevs[i:i + 1000] for i in range(0, len(cevs), 1000)], res.wd, "checkcmd", shards=4)
+    res.add_judge("check_command", t1c, stc, only_props={"C13"})
     res.nontrivial = len(set((e["fmt"], json.dumps(e["lines"])) for e in evs if e["ev"] == "file" and len(e["lines"]) >= 3 and e["res"] == "ok")) + \
         len(set((e["fmt"], e["origin"], e["len"], e["res"]) for e in evs if e["ev"] == "total"))
     fe = [e for e in evs if e["ev"] == "file" and len(e["lines"]) >= 3]
@@ -891,7 +899,6 @@ def c11(tier):
 # ----------------------------------------------------------------------------------------------------------------
 # C05 command-line tools
 # ----------------------------------------------------------------------------------------------------------------
-import cli as clilib
 
 
 @check("C05")
